@@ -22,7 +22,7 @@ from vlib.world import (
 
 from workflows.events import StopEvent, UnhandledEvent, WorkflowIdleEvent
 from workflows.runtime.control_loop import _ControlLoopRunner, _reduce_tick
-from workflows.runtime.types.commands import CommandPublishEvent, CommandScheduleIdleCheck
+from workflows.runtime.types.commands import CommandPublishEvent, CommandRunWorker, CommandScheduleIdleCheck
 from workflows.runtime.types.internal_state import BrokerState
 from workflows.runtime.types.plugin import InternalRunAdapter
 from workflows.runtime.types.results import AddCollectedEvent, AddWaiter, StepWorkerFailed, StepWorkerResult
@@ -90,21 +90,29 @@ def _mk_tick(tk: int, wid: int, kind: int):
         res = [StepWorkerFailed.model_construct(exception=ValueError("x"), failed_at=1.0)]
     elif kind == 3:
         res = [AddCollectedEvent.model_construct(event_id="buf", event=EVA)]
-    else:
+    elif kind == 4:
         res = [AddWaiter(waiter_id="w1", event_type=EvC, timeout=None)]
+    elif kind == 5:
+        # a collecting step (snapshot possibly stale) whose body then raised
+        res = [AddCollectedEvent.model_construct(event_id="buf", event=EVA), StepWorkerFailed.model_construct(exception=ValueError("x"), failed_at=1.0)]
+    else:
+        # a collecting step (snapshot possibly stale) that then returned an event
+        res = [AddCollectedEvent.model_construct(event_id="buf", event=EVA), StepWorkerResult.model_construct(result=EVB)]
     return TickStepResult.model_construct(step_name="a", worker_id=wid, event=EVA, result=res)
 
 
 @obligation(quick=120, thorough=400,
-            partitions_quick=[f"tk == {t}" for t in range(4)] + [f"tk == 4 and kind == {k}" for k in (0, 1, 3, 4)] + [f"tk == 4 and kind == 2 and nw == {n}" for n in (1, 2, 3)],
-            partitions_thorough=[f"tk == {t} and nw == {n}" for t in range(4) for n in (1, 2, 3)] + [f"tk == 4 and kind == {k} and nw == {n}" for k in range(5) for n in (1, 2, 3)],
-            what="every tick from every REP state: R2 (no stall) preserved; idle-check request / idle flag only with a quiescent live post-state",
-            bounds={"num_workers": "1..3", "queue": "0..2", "tick kinds": "add(accepted)/add(waited-or-unhandled)/waiter-timeout/idle-check/step-result x5", "policy": "None/0/delay"})
+            partitions_quick=[f"tk == {t}" for t in range(4)] + [f"tk == 4 and kind == {k}" for k in (0, 1, 3, 4, 6)] + [f"tk == 4 and kind == {k} and nw == {n}" for k in (2, 5) for n in (1, 2, 3)],
+            partitions_thorough=[f"tk == {t} and nw == {n}" for t in range(4) for n in (1, 2, 3)] + [f"tk == 4 and kind == {k} and nw == {n}" for k in range(7) for n in (1, 2, 3)],
+            what="every tick from every REP state: R2 (no stall) preserved; a slot whose worker just reported stays occupied only if that worker is "
+                 "re-run by the same tick or parked on a waiter (no slot is held by nothing); idle-check request / idle flag only with a "
+                 "quiescent live post-state",
+            bounds={"num_workers": "1..3", "queue": "0..2", "tick kinds": "add(accepted)/add(waited-or-unhandled)/waiter-timeout/idle-check/step-result x7 (incl. collect + failure, collect + result)", "policy": "None/0/delay"})
 def ob_no_stall_and_idle_flags(nw: int, b0: bool, b1: bool, b2: bool, q: int, wk: int, tk: int, wid: int, kind: int, pol: int,
                                live: int, snap: int, running: bool) -> bool:
     """
     pre: world_ab_valid(nw, b0, b1, b2, q) and q <= 2
-    pre: 0 <= wk <= 3 and 0 <= tk <= 4 and 0 <= kind <= 4 and 0 <= pol <= 2 and 0 <= snap <= live <= 1
+    pre: 0 <= wk <= 3 and 0 <= tk <= 4 and 0 <= kind <= 6 and 0 <= pol <= 2 and 0 <= snap <= live <= 1
     pre: 0 <= wid <= 2 and (tk != 4 or (b0 if wid == 0 else (b1 if wid == 1 else b2)))
     pre: running or (q == 0 and not b0 and not b1 and not b2)
     post: _
@@ -113,6 +121,13 @@ def ob_no_stall_and_idle_flags(nw: int, b0: bool, b1: bool, b2: bool, q: int, wk
     st2, cmds = _reduce_tick(_mk_tick(tk, wid, kind), st, 1, "r")
     if not (rep_R1(st2) and rep_R2(st2)):
         return False
+    if tk == 4 and kind != 4:
+        # the worker of slot (a, wid) has just reported and is not parking on a waiter: the slot is free again, or taken over by a
+        # queued event / re-run of the same invocation - in both cases THIS tick starts a worker on it
+        still = any(x.worker_id == wid for x in st2.workers["a"].in_progress)
+        rerun = any(isinstance(c, CommandRunWorker) and c.step_name == "a" and c.id == wid for c in cmds)
+        if still and not rerun:
+            return False
     wants_check = any(isinstance(c, CommandScheduleIdleCheck) for c in cmds)
     n_idle = _idle_publications(cmds)
     if (wants_check or n_idle) and not (_quiescent(st2) and st2.is_running):
